@@ -158,6 +158,10 @@ func schedule(r *rand.Rand, p *vm.Plan, mode string, maxDurNs int64, horizon int
 func entropy(r *rand.Rand) *vm.Entropy {
 	b := make([]byte, 32)
 	r.Read(b)
+	if r.Intn(6) == 0 {
+		// a deterministic source of the "label + counter" kind: seeds that share a long prefix
+		copy(b, "bsim deterministic source #")
+	}
 	e := &vm.Entropy{Bytes: hex.EncodeToString(b)}
 	switch r.Intn(12) {
 	case 0:
